@@ -140,6 +140,12 @@ def _bernoulli(probs):
     return tfd.Bernoulli(probs=probs, dtype=jnp.float32)
 
 
+def _mvn3(loc, scale):
+    # a distribution with a non-scalar event shape: 3-dimensional normal with diagonal covariance;
+    # loc / scale may be scalars or vectors of length 3
+    return tfd.MultivariateNormalDiag(loc=loc + jnp.zeros(3, jnp.float32), scale_diag=scale * jnp.ones(3, jnp.float32))
+
+
 def _uniform_lw(low, width):
     # Uniform(low, low + width): its default event-space bijector, Sigmoid(low, high), depends on
     # the distribution's parameters
@@ -156,6 +162,7 @@ FAMILIES = {
     "invgamma": {"tfd": tfd.InverseGamma, "params": {"concentration": "pos", "scale": "pos"}, "support": "pos"},
     "bernoulli": {"tfd": _bernoulli, "params": {"probs": "unit"}, "support": "binary"},
     "poisson": {"tfd": tfd.Poisson, "params": {"rate": "pos"}, "support": "count"},
+    "mvn3": {"tfd": _mvn3, "params": {"loc": "real", "scale": "pos"}, "support": "real", "event": 3},
     "uniform_lw": {"tfd": _uniform_lw, "params": {"low": "real", "width": "pos"}, "support": "real"},
 }
 
@@ -324,6 +331,9 @@ def gen_spec(rng, n_items=(4, 14), p_dist=0.5, p_transient=0.3, p_vec=0.35, seed
                 # the value must cover the batch shape of its distribution
                 if any("i" in r_ and items[r_["i"]].get("shape") == [3] for r_ in args.values()):
                     shape = [3]
+                if F.get("event"):
+                    shape = [F["event"]]
+                    dist["per_obs"] = True
             else:
                 vk = rng.choice(["real", "real", "pos", "unit"])
             role = None
@@ -333,7 +343,7 @@ def gen_spec(rng, n_items=(4, 14), p_dist=0.5, p_transient=0.3, p_vec=0.35, seed
                 role = rng.choice(["obs", "param"])
             it = {"k": "var", "name": f"{VP}{idx}", "val": draw_value(rng, vk, shape), "vk": vk, "shape": shape,
                   "role": role, "dist": dist, "transform": None}
-            if dist is not None and transforms and rng.random() < p_transform and not dist["transient"] and vk in ("pos", "unit", "real"):
+            if dist is not None and transforms and rng.random() < p_transform and not dist["transient"] and vk in ("pos", "unit", "real") and not FAMILIES[dist["fam"]].get("event"):
                 # a bijector argument must not be larger than the variable it transforms
                 it["transform"] = gen_transform(rng, dist["fam"], vk, transforms, lambda want: pick_ref(want, scalar_only=(shape == [])))
             items.append(it)
